@@ -1,7 +1,7 @@
 (* C07 — an abandoned request (timeout, dropped stream) never harms the server. Statements only.
    Model: Model/Server.v after the repair of the cancelled()/set_result race (known_findings.json).
    A caller's deadline may expire at any step ([K i true]); it then cancels its future. *)
-From MpV Require Import Lib.Conc Model.Server Proof.ServerProof.
+From MpV Require Import Lib.Conc Model.Server Proof.ServerProof Proof.ServerLive.
 
 (* wherever the abandonment falls relative to the gather thread receiving, checking and resolving the
    request, the gather thread is never killed by an exception *)
@@ -17,9 +17,26 @@ Theorem C07_others_unaffected : forall (g : cfg) (sched : list label) (i : nat) 
 Proof. exact answers_are_own_results. Qed.
 Print Assumptions C07_others_unaffected.
 
-(* C07_shutdown_completes_todo (liveness; rests on the scheduler exploration: every explored run,
-   including those with timer-adversarial schedules, leaves the `with server` block):
-     from every reachable state the exit sequence reaches mp s = MDone. *)
+(* The server never wedges, whatever was abandoned and whenever: for every capacity, set of callers (with or without
+   backpressure), number of workers, servlet function and every interleaving - including every moment at which a caller's
+   deadline may expire and every position of the abandonment relative to the arrival of the result - a state in which no
+   thread can take a step is the state in which every caller has its outcome, the workers, the gather thread and the
+   notifier have ended and the `with server` block has been left. With a fair scheduler: every other request is still
+   answered (or times out by its own deadline) and the server shuts down normally. *)
+Theorem C07_server_never_wedges : forall (g : cfg) (sched : list label),
+  stuck g (run step g (init g) sched) -> finished (run step g (init g) sched).
+Proof. exact server_never_wedges. Qed.
+Print Assumptions C07_server_never_wedges.
+
+(* the finished state is reached, e.g. after a timed-out request: one caller, deadline expires, late result discarded *)
+Example C07_finished_example :
+  let g := {| capacity := 2; callers := [ {| backpressure := true; arg := 5%Z |} ];
+              nworkers := 1; serve := fun x => Ok x |} in
+  let s := run step g (init g)
+    ([K 0 false; K 0 false; K 0 false; K 0 false; K 0 false; B 0; B 0; G; G; G; K 0 true; K 0 false; G; G]
+     ++ [Nf; Nf; Nf; Nf; M; B 0; B 0; M; G; G; Nf; G; M]) in
+  mp s = MDone /\ np s = NDone /\ nth_error (kp s) 0 = Some (KDone TimedOut) /\ bp s = [BDone].
+Proof. vm_compute. repeat split; reflexivity. Qed.
 
 (* Non-vacuity: the cancel lands between the gather thread's cancelled() test and its set_result;
    the late result is discarded and the gather thread carries on. *)
